@@ -5,7 +5,7 @@
 (* operators of Spil.tla; a line is accepted when every clause holds.      *)
 (* Verdicts are total: a failing line never stops the run, the failing     *)
 (* clause names are accumulated and printed by the POSTCONDITION.          *)
-EXTENDS Spil
+EXTENDS Universe
 Tr == ndJsonDeserialize(IOEnv.TRACE_FILE)
 VARIABLES l, fails
 Cap == 400
@@ -72,7 +72,7 @@ QueryClauses(e) == LET x == QueryExpect(e)  b == QueryBase(e)  o == e.obs
          \/ (ToSet(o.fields) = ToSet(overlay) /\ ~StrContains(o.string, "?") /\ o.type # ""
               /\ o.string = JoinStr(DVals(o.fields), "/"))
          \/ (b.type = "" /\ o.type = "")),
-     C("overlay_types", x.branch \in {"NoQuery", "NoType", "OneType", "ManyKeepsOld", "ManySearchFirst", "ManyRefused", "Undefined"}) >>
+     C("overlay_types", x.branch \in {"NoQuery", "NoType", "OneType", "ManyKeepsOld", "ManySearchFirst", "ManyRefused", "Undefined", "UntypedString"}) >>
 
 GetWithClauses(e) == LET b == QueryBase(e)  g == GetWithKw(b, e.call.kw)  o == e.obs
                          undefined == b.string # "" /\ b.fields = <<>> IN
@@ -95,6 +95,32 @@ EqClauses(e) == LET a == MkFromString(e.call.a)  b == MkFromString(e.call.b)  o 
      C("lt", o.lt = StrLess(a.string, b.string) /\ o.gt = StrLess(b.string, a.string)),
      C("sorted", o.sorted = (IF StrLess(b.string, a.string) THEN <<b.string, a.string>> ELSE <<a.string, b.string>>)) >>
 
+\* ---- C07: unfolding
+ResPairs(x) == {<<r.type, r.segs>> : r \in x.res}
+UnfoldClauses(e) == LET x == Unfold(e.call.search)  o == e.obs IN
+  << C("raise_class", o.err = (IF x.err = "spil" THEN "SpilException" ELSE "")),
+     C("set_equal", x.err # "" \/ o.err # "" \/ ToSet(o.res) = ResPairs(x)),
+     C("no_dup", Cardinality(ToSet(o.res)) = Len(o.res)),
+     C("all_typed", \A i \in DOMAIN o.res : o.res[i][1] # ""),
+     C("no_query_left", \A i \in DOMAIN o.strings : ~StrContains(o.strings[i], "?")) >>
+
+\* ---- C08 / C09 / C12(list part): list search
+LOf(c) == IF c.univ = "" THEN c.L ELSE UniverseSeq(c.univ)
+FindListClauses(e) == LET L == LOf(e.call)  x == FindList(L, e.call.search)  o == e.obs IN
+  << C("err", o.err = (IF x.err = "spil" THEN "SpilException" ELSE "")),
+     C("set", ~x.pre \/ x.err # "" \/ o.err # "" \/ ToSet(o.res) = x.res),
+     C("nodup", Cardinality(ToSet(o.res)) = Len(o.res)),
+     C("subset", ToSet(o.res) \subseteq ToSet(L)),
+     C("as_sid_same", o.err # "" \/ (o.err_sid = "" /\ o.sid_strings_same)),
+     C("exists", o.err # "" \/ (o.exists.raised = "" /\ o.exists.value = (o.res # <<>>))),
+     C("find_one", o.err # "" \/ (o.find_one.raised = "" /\
+                      IF o.res = <<>> THEN o.find_one.value = <<>> ELSE o.find_one.value = o.res[1])),
+     C("find_one_sid", o.err # "" \/ (o.find_one_sid.raised = "" /\
+                      IF o.res = <<>> THEN o.find_one_sid.string = "" ELSE o.find_one_sid.string = JoinStr(o.res[1], "/"))) >>
+MatchClauses(e) == LET x == FindList(<<e.call.entry>>, e.call.search)  o == e.obs IN
+  << C("noraise", o.err = "" \/ (o.err = "SpilException" /\ x.err = "spil")),
+     C("match_iff_found", o.err # "" \/ ~o.typed \/ ~x.pre \/ o.value = (e.call.entry \in x.res)) >>
+
 Clauses(e) ==
   IF "raised" \in DOMAIN e.obs /\ StrStarts(e.obs.raised, "HARNESS") THEN << C("harness", FALSE) >>
   ELSE CASE e.call.op = "sid"     -> SidClauses(e)
@@ -103,6 +129,9 @@ Clauses(e) ==
          [] e.call.op = "query"   -> QueryClauses(e)
          [] e.call.op = "getwith" -> GetWithClauses(e)
          [] e.call.op = "eqlaws"  -> EqClauses(e)
+         [] e.call.op = "unfold"  -> UnfoldClauses(e)
+         [] e.call.op = "findlist" -> FindListClauses(e)
+         [] e.call.op = "match"   -> MatchClauses(e)
          [] OTHER -> << C("unknown_op", FALSE) >>
 
 \* coverage tag of a line (which row of a decision table / which case the line exercised)
@@ -113,6 +142,11 @@ Tag(e) ==
   ELSE IF e.call.op = "getwith" THEN "getwith:" \o (IF GetWithKw(QueryBase(e), e.call.kw).res.type = "" THEN "untyped" ELSE "typed")
   ELSE IF e.call.op = "forms" THEN "forms:" \o MkFromString(e.call).type
   ELSE IF e.call.op = "nav" THEN "nav:" \o e.call.via \o ":" \o (IF NavBase(e).type = "" THEN "untyped" ELSE "typed")
+  ELSE IF e.call.op = "unfold" THEN LET x == Unfold(e.call.search) IN
+        "unfold:" \o (IF x.err # "" THEN "error" ELSE IF x.res = {} THEN "nothing" ELSE IF Cardinality(x.res) = 1 THEN "one" ELSE "many")
+  ELSE IF e.call.op = "findlist" THEN LET x == FindList(LOf(e.call), e.call.search) IN
+        "findlist:" \o (IF x.err # "" THEN "error" ELSE IF ~x.pre THEN "gt-precondition-false"
+                        ELSE (IF x.sorted THEN "gt:" ELSE "star:") \o (IF x.res = {} THEN "nothing" ELSE "found"))
   ELSE e.call.op
 Bump(cov, t) == [x \in DOMAIN cov \cup {t} |-> IF x = t THEN (IF t \in DOMAIN cov THEN cov[t] + 1 ELSE 1) ELSE cov[x]]
 Failed(e) == SelectSeq(Clauses(e), LAMBDA c : ~c[2])
